@@ -3,8 +3,8 @@
 # produce BEHAVIOUR-PRESERVING changes (the checks must stay quiet on them).
 import json, os, subprocess, glob, sys
 rnd = sys.argv[1] if len(sys.argv) > 1 else '1'
-qa, qb = {'1': ('q1', 'q2'), '2': ('q3', 'q4'), '3': ('q5', 'q6'), '4': ('q7', 'q8')}[rnd]
-extra = {'4': ' For this round one of the two changes must be in code AROUND the anchored functions rather than in them - code they call or that calls them: constructors (New...), the metadata backends (metadata/file_metadata.go, couchbase/metadata.go Load/Save/NewCBMetadata), membership implementations and their listeners (membership/, couchbase/membership.go, kubernetes/ha_membership.go), the root package (dcp.go: Start, close, membershipChangedListener, newDcpConfig), couchbase/http_client.go, couchbase/client.go connection helpers, stream/checkpoint.go Save/Load, stream/stream.go Open - whichever of these the property touches. The other change is free. Use the whole palette: renames, extracted/inlined helpers, reordered independent statements, equivalent conditions, loop restructuring, guard clauses instead of if/else, temporaries, named constants, extra log lines.', '3': ' For this round make the kind of change a maintainer makes when touching the code for unrelated reasons: add or reword log lines and comments next to code moves, introduce named constants, pre-size slices and maps, replace an if/else by a switch, change the iteration style, reorder declarations, extract a predicate function, wrap an error with more context only where the error text is not compared, add a defensive nil check on a value that can never be nil, convert a method expression to a closure or back, turn a closure into a named method.', '1': '', '2': ' For this round prefer the LARGER kinds of harmless change: extract a block of an anchored function into a new helper method (including blocks that assign struct fields, start goroutines or call other components) and call it from the same place; inline a small helper into its only caller; rename local variables, named results, parameters of function literals (callbacks) and receiver names; restructure loops (index loop <-> range loop, loop with break <-> loop with condition, early continue); split one function into two that are called in sequence; merge two adjacent if statements; move a declaration closer to its use; change an unused callback parameter to the blank identifier or back.'}[rnd]
+qa, qb = {'1': ('q1', 'q2'), '2': ('q3', 'q4'), '3': ('q5', 'q6'), '4': ('q7', 'q8'), '5': ('q9', 'q10')}[rnd]
+extra = {'5': ' For this round, whenever the property touches one of the following pieces of code, make at least one of your two changes THERE (they were changed or reviewed recently and need exercising); otherwise pick freely among the anchors: stream/stream.go Open (the block that builds the checkpoint, observers and range), Close, listen (the type switch), openAllStreams, reopenStream, setOffset; stream/checkpoint.go Save, Load, StartSchedule/StopSchedule; couchbase/doc_op.go (how each wrapper builds its gocbcore options struct and waits), couchbase/async_op.go; couchbase/observer.go needCatchup, canForward, End, SnapshotMarker, SeqNoAdvanced; couchbase/rollback_mitigation.go observe (and its completion callback), observeVbID, reset, markAbsentInstances, getMinSeqNo; couchbase/healthcheck.go Start, Stop, run, performHealthCheck; couchbase/http_client.go GetVersion; couchbase/metadata.go Load, Save, NewCBMetadata; couchbase/client.go createMetadataAgent, getCollectionID; couchbase/membership.go membershipChangedListener, GetInfo, rebalance; metadata/file_metadata.go; membership/dynamic_membership.go; kubernetes/stateful_set_membership.go getPodOrdinalFromHostname, kubernetes/ha_membership.go; helpers/utils.go Retry, ChunkSlice, IsMetadata; helpers/data_units.go; config/dcp.go applyDefaultGroupMembership; dcp.go printConfiguration, newDcpConfig, Commit, close, membershipChangedListener. Typical edits: rename locals and parameters (including named results), introduce temporaries for struct literals or for fields read twice, build a struct literal field by field, replace if/else by guard clauses, extract a helper for a block and call it at the same place, inline a helper, reorder independent statements, switch <-> if chains, loop form changes.', '4': ' For this round one of the two changes must be in code AROUND the anchored functions rather than in them - code they call or that calls them: constructors (New...), the metadata backends (metadata/file_metadata.go, couchbase/metadata.go Load/Save/NewCBMetadata), membership implementations and their listeners (membership/, couchbase/membership.go, kubernetes/ha_membership.go), the root package (dcp.go: Start, close, membershipChangedListener, newDcpConfig), couchbase/http_client.go, couchbase/client.go connection helpers, stream/checkpoint.go Save/Load, stream/stream.go Open - whichever of these the property touches. The other change is free. Use the whole palette: renames, extracted/inlined helpers, reordered independent statements, equivalent conditions, loop restructuring, guard clauses instead of if/else, temporaries, named constants, extra log lines.', '3': ' For this round make the kind of change a maintainer makes when touching the code for unrelated reasons: add or reword log lines and comments next to code moves, introduce named constants, pre-size slices and maps, replace an if/else by a switch, change the iteration style, reorder declarations, extract a predicate function, wrap an error with more context only where the error text is not compared, add a defensive nil check on a value that can never be nil, convert a method expression to a closure or back, turn a closure into a named method.', '1': '', '2': ' For this round prefer the LARGER kinds of harmless change: extract a block of an anchored function into a new helper method (including blocks that assign struct fields, start goroutines or call other components) and call it from the same place; inline a small helper into its only caller; rename local variables, named results, parameters of function literals (callbacks) and receiver names; restructure loops (index loop <-> range loop, loop with break <-> loop with condition, early continue); split one function into two that are called in sequence; merge two adjacent if statements; move a declaration closer to its use; change an unused callback parameter to the blank identifier or back.'}[rnd]
 props = {json.loads(l)['id']: json.loads(l) for l in open('/verif/properties.jsonl')}
 head = '''You are helping to evaluate a verification tool for a Go library (Trendyol/go-dcp, a Couchbase DCP consumer library) by producing HARMLESS, behaviour-preserving source changes: the kind of edit a maintainer makes all the time and that must NOT be reported as a defect. You work ONLY inside scratch git worktrees under /tmp/quiet/ — never touch /repo or /verif, never read anything under /verif.
 
